@@ -7,7 +7,7 @@ use std::collections::HashMap;
 
 #[test]
 fn verif_witness_search_errors() {
-  let programs: [(&str, &str); 14] = [
+  let programs: [(&str, &str); 18] = [
     ("operand of the wrong type", "class Main { function main(): unit = { let _ = 1 + true; } }"),
     ("wrong number of arguments", "class Main { function f(a: int): int = a function main(): unit = { let _ = Main.f(1, 2); } }"),
     ("unresolved variable", "class Main { function main(): unit = { let _ = nope; } }"),
@@ -22,6 +22,10 @@ fn verif_witness_search_errors() {
     ("violated type-parameter bound (concrete class)", "interface Comparable<T> { method compare(other: T): int } class Cmp { function <C: Comparable<C>> compare(v1: C, v2: C): int = v1.compare(v2) } class A(val i: int) { } class Main { function main(): unit = { let _ = Cmp.compare(A.init(1), A.init(2)); } }"),
     ("argument of the wrong type", "class Main { function f(a: int): int = a function main(): unit = { let _ = Main.f(true); } }"),
     ("wrong return type", "class Main { function f(): int = true function main(): unit = {} }"),
+    ("if-let pattern variable used in the else branch", "class Opt(Some(int), None) { method f(): int = if let Some(x) = this { 0 } else { x } } class Main { function main(): unit = {} }"),
+    ("if-let pattern variable used in a nested else-if", "class Opt(Some(int), None) { method f(b: bool): int = if let Some(x) = this { 0 } else if b { x } else { 0 } } class Main { function main(): unit = {} }"),
+    ("match-arm variable used in another arm", "class Opt(Some(int), None) { method f(): int = match this { Some(x) -> 0, None -> x } } class Main { function main(): unit = {} }"),
+    ("block-local variable used after the block", "class Main { function f(): int = { let _ = { let y = 1; y }; y } function main(): unit = {} }"),
   ];
   let lib = "class Account(private val balance: int) {\n  function open(): Account = Account.init(42)\n  private method secret(): int = this.balance\n  method visible(): int = this.secret()\n}\nclass Bank {\n  function account(): Account = Account.open()\n}\nprivate class Hidden { function f(): int = 1 }";
   let two_modules: [(&str, &str); 4] = [
@@ -30,7 +34,9 @@ fn verif_witness_search_errors() {
     ("private method of a class of another module", "import { Bank } from Lib\nclass Main { function main(): unit = { let _ = Bank.account().secret(); } }"),
     ("private class of another module", "import { Hidden } from Lib\nclass Main { function main(): unit = { let _ = Hidden.f(); } }"),
   ];
+  let shapes = "interface Container<T> { method get(): T }\ninterface Shape : Container<int, int> { method area(): Missing }";
   let mut all: Vec<(&str, Vec<(&str, &str)>)> = programs.iter().map(|(w, t)| (*w, vec![("Demo", *t)])).collect();
+  all.push(("unresolved name and wrong arity in a module that only declares interfaces", vec![("Lib", shapes), ("Demo", "import { Shape } from Lib\nclass Main { function main(): unit = {} }")]));
   for (w, t) in two_modules {
     all.push((w, vec![("Lib", lib), ("Demo", t)]));
   }
@@ -51,7 +57,7 @@ fn verif_witness_search_errors() {
       return;
     }
   }
-  println!("WITNESS-SEARCH: no violating history found (18 erroneous programs)");
+  println!("WITNESS-SEARCH: no violating history found (23 erroneous programs)");
 }
 
 // Witness search for unit `loopvars` (C01): self tail calls that permute or shift their parameters; the
